@@ -6,6 +6,7 @@ pub mod c04;
 pub mod c05;
 pub mod c06;
 pub mod c07;
+pub mod c08;
 pub mod c09;
 pub mod c10;
 pub mod c11;
@@ -14,6 +15,7 @@ pub mod c13;
 pub mod c14;
 pub mod c15;
 pub mod c16;
+pub mod c17;
 
 use crate::runner::{EvidenceMeta, Report, RunCtx};
 
@@ -47,6 +49,7 @@ pub fn run(ctx: &RunCtx) -> Option<PropResult> {
         "C05" => Some(c05::run(ctx)),
         "C06" => Some(c06::run(ctx)),
         "C07" => Some(c07::run(ctx)),
+        "C08" => Some(c08::run(ctx)),
         "C09" => Some(c09::run(ctx)),
         "C10" => Some(c10::run(ctx)),
         "C11" => Some(c11::run(ctx)),
@@ -55,6 +58,7 @@ pub fn run(ctx: &RunCtx) -> Option<PropResult> {
         "C14" => Some(c14::run(ctx)),
         "C15" => Some(c15::run(ctx)),
         "C16" => Some(c16::run(ctx)),
+        "C17" => Some(c17::run(ctx)),
         _ => None,
     }
 }
@@ -128,6 +132,7 @@ fn replay_other(ctx: &RunCtx, phase: &str, case: &serde_json::Value, dir: &std::
         "C05" => c05::replay_other(phase, case, dir, &ctx.findings),
         "C06" => c06::replay_other(phase, case, dir, &ctx.findings),
         "C07" => c07::replay_other(phase, case, dir, &ctx.findings),
+        "C08" => c08::replay_other(phase, case, dir, &ctx.findings),
         "C09" => c09::replay_other(phase, case, dir),
         "C10" => c10::replay_other(phase, case, dir),
         "C11" => c11::replay_other(phase, case, dir, &ctx.findings),
@@ -135,6 +140,7 @@ fn replay_other(ctx: &RunCtx, phase: &str, case: &serde_json::Value, dir: &std::
         "C13" => c13::replay_other(phase, case, dir, &ctx.findings),
         "C14" => c14::replay_other(phase, case, dir, &ctx.findings),
         "C16" => c16::replay_other(phase, case, dir, &ctx.findings),
+        "C17" => c17::replay_other(phase, case, dir, &ctx.verif_dir, &ctx.findings),
         _ => None,
     }
 }
